@@ -123,7 +123,12 @@ lines.append("Each sub-agent saw only the text of one property and a scratch "
              "by re-running the stored changes at another seed (S5/S7/S13-"
              "C16: header slope exactly 1 with an intercept; S17-C14: scales "
              "sharing the bit triple) were made systematic (C16 sub-check "
-             "scaling_grid, C14 shared-bits pyramids). "
+             "scaling_grid, C14 shared-bits pyramids). Round 22 (S22-*): "
+             "modernisation pull requests of 30-120 lines (lint-driven "
+             "clean-ups, migration to newer NumPy / pathlib / math idioms, "
+             "type annotations with argument normalisation), all edits but "
+             "one behaviour-preserving; all 20 were caught as the checks "
+             "stood. "
              "%d changes in total: %d rejected as outside the "
              "quantified domain (marked), %d not detected (marked, a "
              "documented limit), %d detected; "
